@@ -22,4 +22,9 @@ C01Next == \E m \in Minerals :
                     UpdateOk(m, fl, par, cb, NextO(Last(hist[m]), cfg[m], EffRegime(m, cb), fl, par),
                                              NextF(Last(hist[m]), cfg[m], EffRegime(m, cb), fl, par))
 C01Spec == Init /\ [][C01Next]_vars
+\* seed reproducibility of the default-constructed texture: every ordered pair of constructions
+\* (the call log is part of the state, so all pairs are enumerated); equal (seed, n) => equal term
+C01SeedConfigs == {[phase |-> p, fabric |-> IF p = 0 THEN 0 ELSE 5, regime |-> 4, n |-> n] : p \in {0, 1}, n \in Ns}
+C01SeedNext == \E m \in Minerals, c \in Configs, s \in Seeds : Create(m, c, s, "random", InitO(s, c.n, "random"), InitF(c.n, "random"))
+C01SeedSpec == Init /\ [][C01SeedNext]_vars
 ====
